@@ -545,7 +545,7 @@ func (P *Prog) expandBoolCalls(conds []Fact, depth int) [][]Fact {
 // into a helper. Helpers with many paths are not expanded.
 func (P *Prog) expandConds(conds []Fact, depth int) [][]Fact {
 	alts := [][]Fact{{}}
-	for _, c := range conds {
+	for ci, c := range conds {
 		sub := P.expandOne(c, depth)
 		var next [][]Fact
 		for _, a := range alts {
@@ -557,7 +557,7 @@ func (P *Prog) expandConds(conds []Fact, depth int) [][]Fact {
 		if len(alts) > 768 {
 			// give up expanding further conditions
 			for i := range alts {
-				alts[i] = append(alts[i], conds[len(alts[i]):]...)
+				alts[i] = append(alts[i], conds[ci+1:]...)
 			}
 			break
 		}
